@@ -62,7 +62,7 @@ Definition clen_of (members : list omember) (probe : list (Z * Z * Z * Z)) (d : 
   | None =>
       match find (fun q : Z * Z * Z * Z => let '(pl, ma, mb, _) := q in (pl =? n) && (ma =? a) && (mb =? b)) probe with
       | Some (_, _, _, cl) => cl
-      | None => n + 1000
+      | None => 20   (* a block that was never delivered (skipped after a fault): any length that fits *)
       end
   end.
 
